@@ -101,6 +101,7 @@ class Deep:
         self.uid = 0
         self.fid = 0
         self.paths = []
+        self.mut_refs = set()  # heap places a `&mut` was taken of
         self.adt_of = {}    # ("discr", term) -> ADT path of the matched value
         self.call_info = {}  # uid of an opaque call -> its fn operand (path, self type, trait, ...)
 
@@ -219,7 +220,10 @@ class Deep:
         if k == "use":
             return self.operand(fr, st, rv["op"])
         if k == "ref":
-            return ("ref", self.place_of(fr, st, rv["pl"]))
+            pl = self.place_of(fr, st, rv["pl"])
+            if rv.get("mut"):
+                self.mut_refs.add(pl)
+            return ("ref", pl)
         if k == "discr":
             v = self.read(st, self.place_of(fr, st, rv["pl"]))
             return self.discr_of(st, v, rv)
@@ -529,6 +533,14 @@ class Deep:
                     a = ("refto", v)
             snap.append(a)
         args = snap
+        # an opaque callee may write through the `&mut` references it receives (directly or captured by a closure
+        # argument): what they point to is unknown afterwards
+        for a in args:
+            for x in subterms(a) if isinstance(a, tuple) else ():
+                if x[0] == "ref" and x[1] in self.mut_refs and x[1] in st.heap:
+                    old = st.heap[x[1]]
+                    if old[0] in ("variant", "const", "tuple"):
+                        self.write(st, x[1], ("havoc", uid, x[1]))
         if f is not None:
             self.call_info[uid] = f
         st.effects.append(("call", path, tuple(args), site, uid))
@@ -631,6 +643,8 @@ class Deep:
         if not m:
             return None
         adt, var = m.group(1), m.group(2)
+        if adt.startswith(("std::prelude", "core::prelude")):
+            adt = "std::option::Option" if var == "Some" else "std::result::Result" if var in ("Ok", "Err") else adt
         if adt in ("std::option::Option", "core::option::Option") and var == "Some":
             return self.some(args[0]) if args else None
         if adt in ("std::result::Result", "core::result::Result") and var in ("Ok", "Err"):
